@@ -1,2 +1,177 @@
-(* C19 - placeholder while the proofs are being built *)
-From MafVerif Require Import lib.Base model.OverlapStream.
+(* C19 - Reading, unsorted writing and overlap iteration are incremental; a
+   sorter of capacity m keeps fewer than m records in memory.
+   Property theorems only (statements about the consumption-discipline models
+   of model/OverlapStream.v and the `consumed` counters of model/Overlap.v);
+   proofs are in proofs/OverlapStreamFacts.v. *)
+From Coq Require Import Permutation.
+From MafVerif Require Import lib.Base lib.Str model.Overlap model.OverlapStream proofs.OverlapStreamFacts.
+
+(* ---- reader: for every file, every header length, every parsing functions.
+   After construction the reader has pulled the header lines, the column line
+   and one look-ahead line (fewer only if the file ends earlier). *)
+Theorem C19_reader_constructor_lookahead :
+  forall (H Sch : Type) (parse_header : list str -> res H)
+         (check_columns : H -> option (list str) -> res Sch) lines s r,
+    reader_init parse_header check_columns lines = (s, Ok r) ->
+    s_consumed (r_src r) = Nat.min (length lines) (hcount lines + 2).
+Proof.
+  intros H Sch ph cc lines s r E.
+  exact (proj1 (proj2 (proj2 (reader_init_pulled ph cc lines s r E)))).
+Qed.
+Print Assumptions C19_reader_constructor_lookahead.
+
+(* a constructor that fails has not pulled more than that either *)
+Theorem C19_reader_failed_constructor_bound :
+  forall (H Sch : Type) (parse_header : list str -> res H)
+         (check_columns : H -> option (list str) -> res Sch) lines s o,
+    reader_init parse_header check_columns lines = (s, o) ->
+    (s_consumed s <= hcount lines + 2)%nat.
+Proof. intros H Sch ph cc lines s o E. exact (reader_init_bound ph cc lines s o E). Qed.
+Print Assumptions C19_reader_failed_constructor_bound.
+
+(* the j-th record returned (0-based) is parsed from physical line
+   at = hcount+2+j; at the moment it is returned exactly min(len, at+1) lines
+   have been pulled: never more than one line beyond the record *)
+Theorem C19_reader_one_line_beyond_the_record :
+  forall (H Sch X : Type) (parse_header : list str -> res H)
+         (check_columns : H -> option (list str) -> res Sch)
+         (parse_record : Sch -> str -> Z -> res X) lines s r k r' out j x c,
+    reader_init parse_header check_columns lines = (s, Ok r) ->
+    reader_take parse_record k r = (r', out) -> nth_error out j = Some (x, c) ->
+    let at_ := (hcount lines + 2 + j)%nat in
+    (at_ <= length lines)%nat /\ c = Nat.min (length lines) (S at_) /\ (c <= at_ + 1)%nat /\
+    exists raw, nth_error lines (at_ - 1) = Some raw /\
+                parse_record (r_scheme r) (rstrip_crlf raw) (Z.of_nat at_) = Ok x.
+Proof.
+  intros H Sch X ph cc pr lines s r k r' out j x c.
+  exact (reader_lookahead ph cc pr lines s r k r' out j x c).
+Qed.
+Print Assumptions C19_reader_one_line_beyond_the_record.
+
+(* a __next__ that raises (parsing under Strict) pulls nothing *)
+Theorem C19_reader_failed_next_pulls_nothing :
+  forall (Sch X : Type) (parse_record : Sch -> str -> Z -> res X) lines r r' e,
+    RInv lines r -> reader_next parse_record r = (r', Raise e) -> r' = r.
+Proof. intros Sch X pr lines r r' e HI E. exact (@reader_next_spec unit Sch X (fun _ => Ok tt) pr lines r r' (Raise e) HI E). Qed.
+Print Assumptions C19_reader_failed_next_pulls_nothing.
+
+(* ---- unsorted writer: when the write call returns normally and no sorter is
+   installed, the handle has received the record's line as the last write
+   (preceded, for the first record only, by the column line) *)
+Theorem C19_unsorted_write_is_emitted_on_return :
+  forall (Rec : Type) (column_line render : Rec -> str) (validate : Rec -> res unit)
+         (wants_sorter : res bool) w r w',
+    writer_iadd column_line render validate wants_sorter w r = (w', Ok tt) ->
+    w_sorter w' = None ->
+    exists pre, col_prefix column_line w r pre /\ w_out w' = w_out w ++ pre ++ [render r ++ [LF]].
+Proof.
+  intros Rec cl rd vl ws w r w'.
+  exact (iadd_unsorted_emits cl rd vl ws w r w').
+Qed.
+Print Assumptions C19_unsorted_write_is_emitted_on_return.
+
+Theorem C19_writer_output_only_grows :
+  forall (Rec : Type) (column_line render : Rec -> str) (validate : Rec -> res unit)
+         (wants_sorter : res bool) w r w' o,
+    writer_iadd column_line render validate wants_sorter w r = (w', o) ->
+    exists more, w_out w' = w_out w ++ more.
+Proof. intros Rec cl rd vl ws w r w' o. exact (iadd_output_grows cl rd vl ws w r w' o). Qed.
+Print Assumptions C19_writer_output_only_grows.
+
+(* ---- sorter: after any sequence of adds to a sorter of capacity m >= 1,
+   fewer than m entries are in memory, every spill file holds exactly m, and
+   spilled + in-memory entries are exactly the entries added: all but fewer
+   than m of the records added so far have been spilled.  `sortf` is the host
+   function sorted(); its contract is the hypothesis. *)
+Theorem C19_sorter_spills_all_but_fewer_than_capacity :
+  forall (X E : Type) (entry_of : X -> res E) (sortf : list E -> list E),
+    (forall l, Permutation (sortf l) l) ->
+    forall m xs, (1 <= m)%nat ->
+    let s := sorter_adds entry_of sortf (sorter_new m) xs in
+    (length (stash s) < m)%nat /\
+    Forall (fun c => length c = m) (chunks s) /\
+    Permutation (concat (chunks s) ++ stash s) (entries entry_of xs) /\
+    (length (entries entry_of xs) - length (concat (chunks s)) < m)%nat.
+Proof. intros X E eo sf Hs m xs Hm. exact (sorter_adds_spec eo sf Hs m xs Hm). Qed.
+Print Assumptions C19_sorter_spills_all_but_fewer_than_capacity.
+
+(* ---- overlap iteration (both grouping modes, any contig list, any inputs,
+   sorted or not): at every point between calls of a history without a raised
+   error, input k has been pulled exactly (records of k emitted so far) + (1 if
+   a look-ahead record is held) times *)
+Lemma okey_no_stop c r : okey c r <> Raise StopIteration.
+Proof.
+  unfold okey. destruct (contigs c); [discriminate|].
+  destruct (index_of (rchr r) (s :: l)); discriminate.
+Qed.
+
+Theorem C19_overlap_at_most_one_record_beyond_emitted_groups :
+  forall (c : cfg) xss ins0 gs ins k i,
+    o_init c xss = Ok ins0 ->
+    run_ok rtruthy ccls_cmp ccls_eqb (okey c) ins0 gs ins ->
+    nth_error ins k = Some i ->
+    consumed i = (emitted k gs + peeked i)%nat /\ (consumed i <= emitted k gs + 1)%nat.
+Proof.
+  intros c xss ins0 gs ins k i.
+  exact (overlap_consumption rtruthy ccls_cmp ccls_eqb (okey c) (okey_no_stop c) xss ins0 gs ins k i).
+Qed.
+Print Assumptions C19_overlap_at_most_one_record_beyond_emitted_groups.
+
+(* the same bound inside a call, for the slot being filled *)
+Theorem C19_overlap_bound_within_a_call :
+  forall (c : cfg) bases cells mk added cells' mk' added',
+    Forall2 (CAcc (C:=ccls)) bases cells ->
+    sweep rtruthy ccls_cmp ccls_eqb (okey c) mk added cells = (cells', mk', added', None) ->
+    Forall2 (fun b cl => (consumed (c_in cl) <= b + length (c_slot cl) + 1)%nat) bases cells'.
+Proof.
+  intros c bases cells mk added cells' mk' added'.
+  exact (overlap_consumption_within rtruthy ccls_cmp ccls_eqb (okey c) (okey_no_stop c)
+           bases cells mk added cells' mk' added').
+Qed.
+Print Assumptions C19_overlap_bound_within_a_call.
+
+(* ---------------- non-vacuity ---------------- *)
+Definition s_ (l : list N) : str := l.
+(* "#a" / "A\tB" / "1\t2" / "3\t4" / "5\t6" *)
+Definition demo_lines : list str :=
+  [[35;97]; [65;9;66;10]; [49;9;50;13;10]; [51;9;52]; [53;9;54]]%N.
+Definition demo_init := @reader_init unit unit (fun _ => Ok tt) (fun _ _ => Ok tt) demo_lines.
+Example demo_reader_pulls :
+  match demo_init with
+  | (s, Ok r) =>
+    (s_consumed s,
+     map snd (snd (reader_take (fun (_ : unit) l (_ : Z) => Ok l) 5 r)))
+  | _ => (0%nat, [])
+  end = (3%nat, [4; 5; 5]%nat).
+Proof. vm_compute. reflexivity. Qed.
+
+Example demo_sorter :
+  let s := sorter_adds (fun x : Z => Ok x) (fun l => l) (sorter_new 3) [5; 1; 4; 2; 8; 7; 3] in
+  (stash s, chunks s) = ([3], [[5; 1; 4]; [2; 8; 7]]).
+Proof. vm_compute. reflexivity. Qed.
+
+Example demo_writer :
+  let iadd := writer_iadd (fun _ : Z => [65;9;66]%N) (fun z => [Z.to_N z]) (fun _ => Ok tt) (Ok false) in
+  let w0 := {| w_out := []; w_scheme := false; w_sorter := None |} in
+  let w1 := fst (iadd w0 49) in
+  let w2 := fst (iadd w1 50) in
+  (w_out w1, w_out w2) =
+  ([[65;9;66;10]; [49;10]]%N, [[65;9;66;10]; [49;10]; [50;10]]%N).
+Proof. vm_compute. reflexivity. Qed.
+
+(* overlap: two inputs, the docstring example; consumption after each group *)
+Definition iv (i s e : Z) : orec :=
+  {| rid := i; rtruthy := true; rtumor := []; rnormal := []; rchr := [99%N]; rstart := s; rend := e;
+     oref := []; oalts := [] |}.
+Definition demo_cfg : cfg := {| by_barcodes := false; contigs := [] |}.
+Definition demo_inputs := [[iv 0 1 10; iv 1 15 15; iv 2 30 40]; [iv 3 5 25; iv 4 50 60]].
+Example demo_overlap_consumption :
+  match o_init demo_cfg demo_inputs with
+  | Ok i0 =>
+    let '(i1, o1) := o_next_group demo_cfg i0 in
+    let '(i2, o2) := o_next_group demo_cfg i1 in
+    (map consumed i0, map consumed i1, map consumed i2,
+     match o1 with Done g => map (map rid) g | _ => [] end)
+  | Raise _ => ([], [], [], [])
+  end = ([1; 1]%nat, [3; 2]%nat, [3; 2]%nat, [[0; 1]; [3]]).
+Proof. vm_compute. reflexivity. Qed.
